@@ -288,7 +288,7 @@ PROPS = {
         "exhaustive": False,
         "proved": ["C07_add", "C07_same_byte", "C07_no_clobber", "C07_symbols_found", "C07_symbols_back", "C07_symbols_sound",
                    "C07_transcription_pinned (T1: control structure and calls of 13 functions of rangewriter.go, sourcemap.go)"],
-        "monitored": ["model = real SourceMap.Add tables", "model advance = real RangeWriter ranges", "exprMapped for every expression of every explored template",
+        "monitored": ["language server sessions (proxy.Server): after every edit, hover requests are translated with the source map of the current text (110 positions per step, 6 steps)", "model = real SourceMap.Add tables", "model advance = real RangeWriter ranges", "exprMapped for every expression of every explored template",
                       "model = real AddSymbolRange lookups", "symbol range of every top-level declaration of every explored template encloses the generated declaration"],
         "partial": ["that every expression is added and every declaration's range is passed to AddSymbolRange rests on the explored templates (there is no byte-exact model of the generator's text)"],
         "trusted_base": ["Go map assignment = later entry wins", "utf8 range iteration modelled by Utf8.decodeRune"],
